@@ -168,6 +168,12 @@ def build(seed, tier):
             'meta': {'cls': cls, 'k': k, 'placement': placement, 'policy': policy, 'seed': seed}}
     if calibrate is not None:
         spec['calibrate'] = calibrate
+    if (cls == 'import-loop' and rc.random() < 0.5) or rc.random() < 0.08:
+        spec['sandbox_threaded'] = True
+        for o in spec['ops'][k + 1:]:
+            o.pop('threaded', None)
+            if T < 1.5 and o.get('op') in sbx.EXEC_OPS:
+                o['threaded'] = False     # the sandbox-wide default would make every later execution threaded
     if tier == 'thorough' and rc.random() < 0.15:
         spec['instruction_level'] = ['_execute', '_execute_with_timeout', '_stop_mocking', '_stop_patches', '_start_patches',
                                      '_capture_exception', 'append_output', 'terminate', 'raise_exception', 'run', 'timeout']
@@ -197,25 +203,48 @@ SETUP_FUNCS = {'_start_mocking', '_start_patches', '_reset_builtins', '_mock_bui
 CLEANUP_FUNCS = {'_stop_mocking', '_stop_patches', 'append_output', '_capture_exception', '__exit__', 'close', 'getvalue'}
 
 
+STRICT_SETUP = {'_start_mocking', '_start_patches', '_reset_builtins', '_mock_builtins', '_track_inputs', 'mock_function',
+                'disabled_builtin', 'clear_exception', 'as_filename', '__enter__'}
+STRICT_CLEANUP = {'_stop_mocking', '_stop_patches', 'append_output', '_capture_exception', '__exit__'}
+
+
+def site_class(site):
+    """site = {'stack': [(file, function), ...] innermost first, 'student_events': n, 'started': bool}"""
+    stack = site['stack']
+    if not site.get('started') or not stack:
+        return 'pedal-setup'            # given up on before it executed anything: all of pedal's setup is still ahead
+    funcs = [f for (_, f) in stack]
+    files = [fl for (fl, _) in stack]
+    if any(f in STRICT_CLEANUP for f in funcs):
+        return 'pedal-cleanup'          # incl. student __str__ / report hooks running beneath the recorder
+    if any(f in STRICT_SETUP for f in funcs):
+        return 'pedal-setup'
+    if files[0] in ('answer.py', 'helper.py'):
+        return 'student-code'
+    if any(fl == 'timeout.py' and f == 'timeout' for fl, f in stack) and any(fl in ('answer.py', 'helper.py') for fl in files):
+        return 'pedal-nested-timeout'   # the student thread is itself waiting for a nested import thread
+    if funcs[0] in ('_input_tracker', '_restricted_import', '_restricted_open', '_import'):
+        return 'pedal-io'
+    if any(fl in ('answer.py', 'helper.py') for fl in files):
+        return 'pedal-io'               # some other pedal service called from student code
+    # inside _execute / run itself, outside the helpers: before the student code started, or after it ended
+    return 'pedal-setup' if site.get('student_events', 0) == 0 else 'pedal-cleanup'
+
+
 def landing_site(res, upto_events=None):
-    """Where the asynchronous SystemExit landed in the abandoned thread, as a class:
-    student-code | pedal-setup | pedal-cleanup | pedal-io (input tracker / restricted import, called from
-    student code) | not-delivered | n/a"""
+    """Where the execution's own thread WAS when pedal gave up on it (the instant it was marked and the
+    asynchronous SystemExit was sent; the exception itself lands 0-2 of the thread's events later, or never), as a class:
+    student-code | pedal-setup | pedal-cleanup | pedal-io (input tracker / restricted import, called from student code)
+    | pedal-nested-timeout | n/a (pedal never gave up on it)."""
     born = res['sched'].get('thread_born') or {}
     mine = [int(t) for t, op in born.items() if op == upto_events] if upto_events is not None else None
-    lands = [x for x in res['sched']['landings'] if x[0] != 0 and (mine is None or x[0] in mine)]
-    if not lands:
-        return 'not-delivered' if res['sched']['async_sent'] else 'n/a'
-    x = lands[0]
-    if x[2] in ('answer.py', 'helper.py'):
-        return 'student-code'
-    if x[3] in CLEANUP_FUNCS:
-        return 'pedal-cleanup'
-    if x[3] in ('_input_tracker', '_restricted_import', '_restricted_open'):
-        return 'pedal-io'
-    if x[3] in SETUP_FUNCS:
-        return 'pedal-setup'
-    return 'pedal-other:%s' % x[3]
+    if mine:
+        mine = [min(mine)]       # the thread pedal started for this execution (not the nested-import threads it started)
+    sent = res['sched'].get('thread_sent_site') or {}
+    for t in sorted(int(k) for k in sent):
+        if t != 0 and (mine is None or t in mine):
+            return site_class(sent[t] if t in sent else sent[str(t)])
+    return 'n/a'
 
 
 def judge(spec, res, k=None):
